@@ -164,7 +164,7 @@ func rewriteDigest(img []byte, md bool) ([]byte, error) {
 }
 
 var classes = []string{"none", "flip_covered", "flip_covered", "flip_any", "transplant", "flip+digest_rewrite", "flip+digest_rewrite", "flip+digest_rewrite+md",
-	"transplant+digest_rewrite", "blob_mutation", "blob_mutation", "forged_resign", "foreign_signer_splice"}
+	"transplant+digest_rewrite", "blob_mutation", "blob_mutation", "forged_resign", "foreign_signer_splice", "valid_foreign_entry_then_transplant"}
 
 func genCase(t *rapid.T) Case {
 	img, signer, base := signedBase(t)
@@ -251,15 +251,10 @@ func genCase(t *rapid.T) Case {
 	case "foreign_signer_splice":
 		// the attacker changes the image, signs the result properly with an own key, and adds the victim's
 		// genuine SignerInfo (taken from the original signature) beside the own one
-		tampered, _, cerr := acode.Content(flip(img, true))
+		bare, cerr := acode.StripTable(flip(img, true))
 		victimEntries, _, terr := acode.Table(img)
 		if cerr != nil || terr != nil || len(victimEntries) == 0 {
 			err = fmt.Errorf("no table")
-			break
-		}
-		bare, werr := acode.WithTable(tampered, nil)
-		if werr != nil {
-			err = werr
 			break
 		}
 		abin, perr := authenticode.Parse(bytes.NewReader(bare))
@@ -288,6 +283,34 @@ func genCase(t *rapid.T) Case {
 			}
 			return nil
 		})
+	case "valid_foreign_entry_then_transplant":
+		// another image, properly signed by somebody else (first entry, correct digest), followed by the victim's
+		// signature entry taken from the victim's image (or the other way round)
+		o := gen.SmallPE
+		o.Table = false
+		otherImg := gen.PEImage(o).Draw(t, "otherimage")
+		abin, perr := authenticode.Parse(bytes.NewReader(otherImg))
+		if perr != nil {
+			err = perr
+			break
+		}
+		attacker := gen.FixedIdents()[5]
+		if _, serr := abin.Sign(attacker.Priv(), attacker.Cert); serr != nil {
+			err = serr
+			break
+		}
+		signedOther := abin.Bytes()
+		oes, _, e1 := acode.Table(signedOther)
+		ves, _, e2 := acode.Table(img)
+		if e1 != nil || e2 != nil || len(oes) == 0 || len(ves) == 0 {
+			err = fmt.Errorf("tables")
+			break
+		}
+		blobs := [][]byte{oes[0].Blob, ves[len(ves)-1].Blob}
+		if rapid.Bool().Draw(t, "victimfirst") {
+			blobs[0], blobs[1] = blobs[1], blobs[0]
+		}
+		out, err = acode.WithTable(signedOther, acode.BuildTable(blobs))
 	case "forged_resign":
 		// tamper, make the blob consistent again (digest + messageDigest) and re-sign the attributes with another key,
 		// keeping the victim's issuer and serial
@@ -315,7 +338,8 @@ func genCase(t *rapid.T) Case {
 		}
 	}
 	if err != nil {
-		// derivation not applicable to this base (e.g. fixture layout): fall back to the plain flip
+		// derivation not applicable to this base (e.g. fixture layout): fall back to the plain flip (counted, so that a derivation that never works is visible)
+		hx.Class("derivation_not_applicable/" + c.Class)
 		c.Class = "flip_covered"
 		out = flip(img, true)
 	}
